@@ -54,7 +54,7 @@ PROPS["C01"] = dict(
         "Zrnt.Proofs.C01.withdrawals_eq",
         "Zrnt.Proofs.C01.withdrawals_empty_registry_witness",
         "Zrnt.Proofs.C01.slashable_eq",
-        "Zrnt.Proofs.C01.M_block_refines_S_partial",
+        "Zrnt.Proofs.C01.M_block_pieces",
         "Zrnt.Proofs.C01.header_eq",
         "Zrnt.Proofs.C01.randao_eq",
         "Zrnt.Proofs.C01.eth1vote_eq",
@@ -66,6 +66,18 @@ PROPS["C01"] = dict(
         "Zrnt.Proofs.C01.syncAggregate_eq",
         "Zrnt.Proofs.C01.proposer_frame",
         "Zrnt.Proofs.C01.WF_preserved_block_partial",
+        "Zrnt.Proofs.C01.attestation_phase0_eq",
+        "Zrnt.Proofs.C01.attestation_altair_eq",
+        "Zrnt.Proofs.C01.attestation_deneb_eq",
+        "Zrnt.Proofs.C01.slash_eq",
+        "Zrnt.Proofs.C01.slash_link",
+        "Zrnt.Proofs.C01.proposerSlashing_eq",
+        "Zrnt.Proofs.C01.attesterSlashing_eq",
+        "Zrnt.Proofs.C01.WF_preserved_slashing",
+        "Zrnt.Proofs.C01.processBlock_eq",
+        "Zrnt.Proofs.C01.M_block_refines_S_partial",
+        "Zrnt.Proofs.C01.postSlotTransition_eq",
+        "Zrnt.Proofs.C01.stateTransition_eq",
     ],
     modes=[dict(name="c01", stateful=True, max_shrinks=3, nontrivial=_nontrivial),
            dict(name="c01pieces", nontrivial=_nontrivial)],
@@ -80,12 +92,19 @@ PROPS["C01"] = dict(
          "(pre/reset lines are not counted); distinct = distinct (position, line) for sequences, distinct lines for pieces",
     trusted_base=TB_COMMON + TB_BLOCK,
     assumptions=ASSUME_BLOCK + [
-        "M_block_refines_S is proved only in part. Whole operations proved M = S (accept/reject and post-state, M = the code-shaped model "
-        "lean/Zrnt/Beacon/Impl/BlockM.lean that is also the model column of c01/c03): header, randao, eth1 vote, voluntary exit (end to end), "
-        "deposit, BLS-to-execution change, execution payload of all three forks, the withdrawals state update and the sync aggregate (against the pure cores the monadic S is cross-checked with at run time); pieces: ZigZagJoin, exit-queue scan, withdrawals sweep, "
-        "slashable predicate, indexed-attestation structure check, attestation timing. NOT proved (correspondence Go = M = S only): "
-        "process_attestation of every fork, slash_validator and the two slashings as whole operations, "
-        "the composition into process_block (needs the frame lemma proposer_frame per operation) and block signature/state root",
+        "M_block_refines_S is proved only in part (M_block_refines_S_partial). Proved M = S (accept/reject and post-state; M = the code-shaped model "
+        "lean/Zrnt/Beacon/Impl/BlockM.lean that is also the model column of c01/c03) for EVERY operation kind: header, randao, eth1 vote, voluntary exit, "
+        "deposit, BLS-to-execution change, execution payload of all three forks, proposer slashing, attester slashing (with slash_validator; the monadic S "
+        "is proved equal to its pure core), and — against pure cores that the monadic S is compared with on every evaluation — the withdrawals state update, "
+        "the sync aggregate, process_attestation of phase0 and of altair..deneb. Proved: the composition processBlock_eq / postSlotTransition_eq / "
+        "stateTransition_eq (with C02's full processSlots_eq) for an arbitrary invariant Inv, with the premise OpSteps (per operation kind: under Inv the "
+        "model simulates the specification — proved from the operation theorems, sim_* — and the accepted result satisfies Inv again). NOT proved: the "
+        "preservation halves of OpSteps for ONE invariant implying every operation's hypotheses (done for exits, deposits' registry part, BLS changes, "
+        "slashings; missing: the magnitude budgets across attestations/sync aggregate/withdrawals and the frame lemmas for the context's committees and "
+        "total active balance — only the proposer has one)",
+        "simulation (Sim): whenever S accepts with a post-state or rejects with `invalid`, M gives the same, and M never panics; S's own overflow/fuel/"
+        "oracle outcomes (S as an executable could not decide) constrain nothing — the operation theorems exclude them under their magnitude hypotheses",
+        "composition hypothesis check_types: the block is a value of the SSZ block type (per-element limits zrnt enforces when decoding)",
         "the round-2 theorems take the EpochsContext as an abstract record with hypotheses that C07 (proposer, committees), C08 (active count, stake) "
         "and C16 (pubkey cache = registry) establish for a real context",
         "theorem hypotheses: index lists hold uint64 values below the ZigZagJoin end marker 2^64-1; activeCount is the number of active validators "
